@@ -26,6 +26,10 @@
 //     never generated, so no line can be taken for the start of the declaration but that one;
 //   - lambdas only as one-line expression lambdas in local initialisers (typed `(Integer x, Integer y) -> x + y` or
 //     inferred `(x, y) -> x + y`): their parameters are not parameters of the method, and no statement hides in them;
+//   - files are written with \n line ends, about one in five (and a dedicated copy of one boundary point per
+//     dimension and offset) with \r\n: both are the same lines with the same numbers. A lone \r is a line terminator
+//     for Java too, but no tool of this kind (nor coca's lexer) counts it and such files are not conventional: not
+//     generated;
 //   - one top-level type per file, no nested / anonymous / local types, no enums / records / annotations;
 //   - constructors only in classes whose verdicts do not depend on whether a constructor is a method.
 package smellgen
@@ -87,6 +91,7 @@ type Class struct {
 	Methods []Method `json:"methods"`
 	Ctors   int      `json:"constructors,omitempty"`
 	Fields  int      `json:"fields,omitempty"`
+	CRLF    bool     `json:"crlf,omitempty"` // the file is written with \r\n line ends (same lines, same numbers)
 	Text    string   `json:"text"`
 }
 
@@ -110,7 +115,7 @@ type Project struct {
 func (p *Project) ShapeKey() string {
 	var sb strings.Builder
 	for _, c := range p.Classes {
-		fmt.Fprintf(&sb, "[%s f%d c%d", c.Kind, c.Fields, c.Ctors)
+		fmt.Fprintf(&sb, "[%s f%d c%d w%v", c.Kind, c.Fields, c.Ctors, c.CRLF)
 		for i := range c.Methods {
 			m := &c.Methods[i]
 			fmt.Fprintf(&sb, "|%s,%s%v,h%v,L%d,p%d,v%v%v,l%d,i%d,s%d,n%d/%d/%d", m.Form, m.Role, m.AccessorNamed, m.HeadSplit, m.TypedLambdaParams, m.Params, m.Varargs, m.Generic, m.CloseLine-m.StartLine, m.TopIfs, m.TopSwitches, m.NestedIfs, m.NestedSwitches, m.ElseIfs)
@@ -136,7 +141,16 @@ func SelfCheck(p *Project) error {
 		if strings.HasSuffix(c.RelPath, "Test.java") || strings.HasSuffix(c.RelPath, "Tests.java") || strings.Contains(c.RelPath, "src/test/java/") || strings.Contains(c.RelPath, "testData") {
 			return fmt.Errorf("path %s would be skipped by the file walker", c.RelPath)
 		}
-		lines := strings.Split(c.Text, "\n")
+		text := c.Text
+		if c.CRLF {
+			if strings.Count(text, "\r\n") != strings.Count(text, "\n") || strings.Count(text, "\r") != strings.Count(text, "\n") {
+				return fmt.Errorf("%s: CRLF file with a lone CR or LF", c.RelPath)
+			}
+			text = strings.ReplaceAll(text, "\r\n", "\n")
+		} else if strings.Contains(text, "\r") {
+			return fmt.Errorf("%s: CR in an LF file", c.RelPath)
+		}
+		lines := strings.Split(text, "\n")
 		at := func(n int) (string, bool) {
 			if n < 1 || n > len(lines) {
 				return "", false
